@@ -1587,23 +1587,6 @@ def c17(ctx):
             m4 = next((l for l in c.mlines if l.startswith('m4 ')), None)
             if m4 is None:
                 continue
-        # the order condition of the placement theorem (C17_displaced_provider_is_placed_before_its_consumers), evaluated by
-        # the driver for every provider still marked Reorder: where it holds, the implementation must not have given up on it
-        for c in allc:
-            ml = next((l for l in c.mlines if l.startswith('m4live ')), None)
-            hdr, fs = dump_funcs(c, 'S4')
-            if ml is None or fs is None or ml.strip() == 'm4live -':
-                continue
-            gave = {f['id'] for f in fs if 'dependencies_not_met' in f.get('why', '')}
-            for ent in ml.split()[1:]:
-                pid, kx = ent.split(':')
-                if kx == 'none':
-                    st['placement_condition_not_met'] += 1
-                    continue
-                st['placement_condition_met'] += 1
-                if pid in gave:
-                    ctx.violations.append(('reorder gave up on provider %s although the order condition of the placement theorem holds for it '
-                                           '(kx=%s, case %s)' % (pid, kx, c.key), write_replay(ctx, 'case_%s.txt' % c.key, c.text()), True))
             t = m4.split(); d = kv(m4)
             if d.get('reorder') != '1':
                 continue
@@ -1627,6 +1610,23 @@ def c17(ctx):
                         'prefix': 'reorder moved a provider in front of the invoke function (Bind keeps using the old index of the invoke function)',
                         'final': 'reorder placed a provider that can be included after the final function'}[bad[0]]
                 ctx.violations.append(('%s (case %s)' % (what, c.key), write_replay(ctx, 'case_%s.txt' % c.key, c.text()), True))
+        # the order condition of the placement theorem (C17_displaced_provider_is_placed_before_its_consumers), evaluated by
+        # the driver for every provider still marked Reorder: where it holds, the implementation must not have given up on it
+        for c in allc:
+            ml = next((l for l in c.mlines if l.startswith('m4live ')), None)
+            hdr, fs = dump_funcs(c, 'S4')
+            if ml is None or fs is None or ml.strip() == 'm4live -':
+                continue
+            gave = {f['id'] for f in fs if 'dependencies_not_met' in f.get('why', '')}
+            for ent in ml.split()[1:]:
+                pid, kx = ent.split(':')
+                if kx == 'none':
+                    st['placement_condition_not_met'] += 1
+                    continue
+                st['placement_condition_met'] += 1
+                if pid in gave:
+                    ctx.violations.append(('reorder gave up on provider %s although the order condition of the placement theorem holds for it '
+                                           '(kx=%s, case %s)' % (pid, kx, c.key), write_replay(ctx, 'case_%s.txt' % c.key, c.text()), True))
     # displaced variants as cases of their own: S4 correspondence, and the order condition of the placement theorem must
     # hold for the displaced provider (that C17's preconditions imply it is not proved: it is evaluated on every variant)
     dvar = load_cases(ctx, 'displacevar', 250 if q else 3000)
